@@ -335,6 +335,15 @@ package syncer
 //@ func dupSortHackEncode
 //@   trusted
 //@   pure
+
+// The per-entry callback of dupSortHackEncode: an encoded key is accepted only
+// if it is strictly greater than the previously accepted one (which it then
+// replaces), so the result has unique keys in ascending order or the whole
+// transform is refused.
+//@ func dupSortHackEncode$1
+//@   ensures refuses_unless_strictly_ascending: r1 == nil ==> lexLess(old(prevKey), r0.Key)
+//@   ensures remembers_accepted_key: r1 == nil ==> sameSlice(prevKey, r0.Key)
+//@   ensures error_keeps_previous: r1 != nil ==> sameSlice(prevKey, old(prevKey))
 //@ func dupSortHackDecode
 //@   trusted
 //@   pure
